@@ -182,16 +182,13 @@ Definition opt (p : string) (l : lookup) (d : dval) : entry := mke (T p) l false
 Definition kp (p : string) (i : nat) : lookup := LKwPos [T p] i.
 Definition kw (p : string) : lookup := LKw [T p].
 
-(* FLIP HERE when a fix for RGBLed.on lands in /repo: the handler at parser.py
-   "m = RE_RGB_LED_ON.match(line)" reads positions 0,1,2 only; once it also looks up the
-   keywords red/green/blue (like set_color does) set this to true.  The correspondence
-   check (harness/props/c08.py) reports which setting matches the real parser. *)
-Definition rgb_on_keyword_fix_landed : bool := false.
-
+(* RGBLed.on: the handler at parser.py "m = RE_RGB_LED_ON.match(line)" looks each colour up by
+   keyword first, then by position 0/1/2 (like set_color / fade / blink), and falls back to 255.
+   (Before the repair "fix: RGBLed.on() honours red/green/blue passed by keyword" it read the
+   positions only - recorded as F-C08-rgb-on-keywords, kind "fixed", in known_findings.d/C08.json;
+   harness/props/c08.py replays that witness on every run.) *)
 Definition row_rgb_on : row :=
-  if rgb_on_keyword_fix_landed
-  then Row None [opt "red" (kp "red" 0) (num 255); opt "green" (kp "green" 1) (num 255); opt "blue" (kp "blue" 2) (num 255)]
-  else Row None [opt "red" (LPos 0) (num 255); opt "green" (LPos 1) (num 255); opt "blue" (LPos 2) (num 255)].
+  Row None [opt "red" (kp "red" 0) (num 255); opt "green" (kp "green" 1) (num 255); opt "blue" (kp "blue" 2) (num 255)].
 
 Definition rgb3 : list entry := [req "red" (kp "red" 0); req "green" (kp "green" 1); req "blue" (kp "blue" 2)].
 Definition core2 (a b : string) : row :=
@@ -331,8 +328,6 @@ Definition guard_ok (g : guard) (sh : call_shape) : bool :=
   forallb (fun c => negb (forallb (fun k => tmem k (kws sh)) (fst c) && existsb (fun k => tmem k (kws sh)) (snd c))) g.
 
 Definition guards : list (text * guard) := Eval vm_compute in [
-  (* RGBLed.on reads positions only: any colour passed by keyword is ignored *)
-  (T "RGBLed.on", if rgb_on_keyword_fix_landed then [] else [([], [T "red"; T "green"; T "blue"])]);
   (* LCD(i2c_addr=..., <parallel pin>=...): the I2C branch never reads the parallel pins *)
   (T "LCD.__init__", [([T "i2c_addr"], [T "rs"; T "en"; T "d4"; T "d5"; T "d6"; T "d7"; T "rw"])])
 ].
